@@ -4,3 +4,4 @@ import OxyModel.Props.C12
 #print axioms C12.C12_pass_only_below
 #print axioms C12.C12_first_after_is_standby
 #print axioms C12.C12_retrip
+#print axioms C12.C12_retrip_fused
